@@ -8,7 +8,9 @@ import WebrtcVerif.Model.Mux
         clsb <hex>                       → same bits for an arbitrary buffer
         pipe <act>…                      → <endpoints> | pend <hex,…> | loop ok|dead
               sequential script over the real readLoop (datagrams written to a net.Pipe)
-              acts: d<hex> feed a datagram · n<m> NewEndpoint · x<k> Endpoint.Close of the k-th endpoint ·
+              acts: d<hex> feed a datagram · n<m> NewEndpoint · N<m> NewEndpoint whose MatchFunc parks (harness yield
+                    `match`) at every call made by NewEndpoint itself, i.e. inside the m.lock section (run only; in
+                    pipe scripts N = n) · x<k> Endpoint.Close of the k-th endpoint ·
                     q Mux.Close · l<k>.<n> buffer limit · r<k> read one packet from endpoint k if one waits
               matchers <m>: dtls srtp srtcp rtp all g<lo>.<hi>
         run <thread spec>… sched <name>… → <name:result>… / <drain name:result>… | <endpoints> | pend … | loop … | all-fin
@@ -18,8 +20,14 @@ import WebrtcVerif.Model.Mux
               sched: thread names to release one segment at a time, then every thread is drained (Sched.Drain)
         <endpoints> = <thread>.<k>=<m>:<hex,…>… (everything read from that endpoint, in order) or `none`
 
-  The simulator maps every released segment to core `Mux.step` actions and never changes the core state in any
-  other way, so every simulated run is a `Reachable` run of the proved transition system.
+  While a creator is parked at `match` it holds m.lock: releasing another thread whose next segment takes the lock
+  reports `blocked` (that segment then runs by itself as soon as the creator has left the section; its label is not
+  reported, as with every woken thread); while one thread is blocked the others are not released at all (`held`),
+  so that at most one thread waits for the lock and the run stays deterministic.
+
+  The simulator maps every released segment to `Mux.lstep` actions (the core `Mux.step` system with m.lock explicit)
+  and never changes the state in any other way, so every simulated run is an `LReachable` run, hence — theorem
+  C27_locked_runs_are_core_runs — a `Reachable` run of the proved transition system.
 -/
 namespace WebrtcVerif.Drv.C27
 open WebrtcVerif WebrtcVerif.Mux
@@ -49,6 +57,7 @@ def parseMatcher (t : String) : Option Matcher :=
 inductive Act
   | feed (d : Pkt)
   | new (tok : String) (m : Matcher)
+  | newPark (tok : String) (m : Matcher)
   | close (k : Nat)
   | muxClose
   | limit (k n : Nat)
@@ -59,6 +68,7 @@ def parseAct (a : String) : Option Act :=
   match a.toList with
   | 'd' :: r => (Wire.bytesOfHex (String.ofList r)).map .feed
   | 'n' :: r => (parseMatcher (String.ofList r)).map (.new (String.ofList r))
+  | 'N' :: r => (parseMatcher (String.ofList r)).map (.newPark (String.ofList r))
   | 'x' :: r => (String.ofList r).toNat?.map .close
   | ['q'] => some .muxClose
   | 'l' :: r =>
@@ -88,22 +98,29 @@ inductive TPc
   | dispFound (rest : List Pkt)
   | acts (todo : List Act)
   | afterReg (rest : List Act)
+  | flushing (tok : String) (rest : List Act)   -- inside NewEndpoint's locked section, parked at a `match` call
   | closing (idx : Nat) (rest : List Act)
   | fin
   deriving Repr
 
 structure Sim where
-  core : St := {}
+  lcore : LSt := {}
+  holder : Option Nat := none       -- the thread parked at `match` (it holds m.lock)
+  waiter : Option Nat := none       -- the thread that was released meanwhile and is blocked on m.lock
   tpcs : List TPc := []
   own : List (List Nat) := []       -- per thread: core indices of the endpoints it created
   toks : List String := []          -- per core endpoint: its matcher token
   obs : List (List Pkt) := []       -- per core endpoint: what `r` acts have read
   deriving Repr
 
-def act (sim : Sim) (a : Action) : Sim :=
-  match step sim.core a with
-  | some c => { sim with core := c }
+def Sim.core (sim : Sim) : St := sim.lcore.st
+
+def lact (sim : Sim) (a : LAction) : Sim :=
+  match lstep sim.lcore a with
+  | some c => { sim with lcore := c }
   | none => sim
+
+def act (sim : Sim) (a : Action) : Sim := lact sim (.free a)
 
 def setT (sim : Sim) (i : Nat) (pc : TPc) : Sim := { sim with tpcs := sim.tpcs.set i pc }
 
@@ -142,10 +159,17 @@ def simpleAct (sim : Sim) (i : Nat) : Act → Sim
     | none => sim
   | _ => sim
 
+def bookEp (sim : Sim) (i idx : Nat) (tok : String) : Sim :=
+  { sim with own := sim.own.set i ((sim.own[i]?).getD [] ++ [idx]), toks := sim.toks ++ [tok], obs := sim.obs ++ [[]] }
+
 def newEp (sim : Sim) (i : Nat) (tok : String) (m : Matcher) : Sim :=
   let idx := sim.core.eps.length
-  let sim := act sim (.newEndpoint m)
-  { sim with own := sim.own.set i ((sim.own[i]?).getD [] ++ [idx]), toks := sim.toks ++ [tok], obs := sim.obs ++ [[]] }
+  bookEp (act sim (.newEndpoint m)) i idx tok
+
+/-- the creator leaves NewEndpoint's locked section: the core `newEndpoint` action happens here -/
+def leaveEp (sim : Sim) (i : Nat) (tok : String) : Sim :=
+  let idx := sim.core.eps.length
+  bookEp { (lact sim (.leave i)) with holder := none } i idx tok
 
 def cont (sim : Sim) (i : Nat) (rest : List Act) : String × Sim :=
   if rest.isEmpty then ("fin", setT sim i .fin) else ("act", setT sim i (.acts rest))
@@ -165,6 +189,10 @@ def segT (sim : Sim) (i : Nat) : TPc → String × Sim
   | .acts (a :: rest) =>
       match a with
       | .new tok m => ("mux.ep.registered", setT (newEp sim i tok m) i (.afterReg rest))
+      | .newPark tok m =>
+        let sim := lact sim (.enter i m)
+        if sim.core.pending.isEmpty then ("mux.ep.registered", setT (leaveEp sim i tok) i (.afterReg rest))
+        else ("match", setT { (lact sim (.matchCall i)) with holder := some i } i (.flushing tok rest))
       | .close k =>
         match ownIdx sim i k with
         | some idx => ("mux.ep.closing", setT (act sim (.epClose idx)) i (.closing idx rest))
@@ -172,7 +200,35 @@ def segT (sim : Sim) (i : Nat) : TPc → String × Sim
       | .feed _ => cont sim i rest
       | a => cont (simpleAct sim i a) i rest
   | .afterReg rest => cont sim i rest
+  | .flushing tok rest =>
+      match sim.lcore.holder with
+      | some (_, _, _ + 1) => ("match", lact sim (.matchCall i))
+      | _ => ("mux.ep.registered", setT (leaveEp sim i tok) i (.afterReg rest))
   | .closing idx rest => cont (act sim (.remove idx)) i rest
+
+/-- does the next segment of a thread in this state begin by taking m.lock? -/
+def needsLock : TPc → Bool
+  | .disp (d :: _) => !d.isEmpty
+  | .acts (.new _ _ :: _) => true
+  | .acts (.newPark _ _ :: _) => true
+  | .acts (.muxClose :: _) => true
+  | .closing _ _ => true
+  | _ => false
+
+/-- the holder has left the locked section: the thread blocked on m.lock (if any) runs its segment by itself -/
+def wake (sim : Sim) : Sim :=
+  if sim.holder.isSome then sim else
+  match sim.waiter with
+  | none => sim
+  | some w =>
+    let sim := { sim with waiter := none }
+    match sim.tpcs[w]? with
+    | some pc => (segT sim w pc).2
+    | none => sim
+
+def isFinPc : TPc → Bool
+  | .fin => true
+  | _ => false
 
 def parseName (n : String) : Option Nat :=
   match n.toList with
@@ -183,7 +239,18 @@ def stepName (sim : Sim) (n : String) : String × Sim :=
   match parseName n with
   | some i =>
     match sim.tpcs[i]? with
-    | some pc => segT sim i pc
+    | some pc =>
+      if sim.waiter == some i then ("skip", sim)
+      else match sim.holder with
+        | some h =>
+          if h == i then
+            let (r, sim') := segT sim i pc
+            (r, wake sim')
+          else if isFinPc pc then ("skip", sim)
+          else if sim.waiter.isSome then ("held", sim)
+          else if needsLock pc then ("blocked", { sim with waiter := some i })
+          else segT sim i pc
+        | none => segT sim i pc
     | none => ("skip", sim)
   | none => ("skip", sim)
 
@@ -191,7 +258,8 @@ def isFin : TPc → Bool
   | .fin => true
   | _ => false
 
-/-- `Sched.Drain`: passes over all threads, each unfinished one runs one segment per pass -/
+/-- the drain of the harness: passes over all threads; an unfinished thread that is not waiting for m.lock is
+    released once per pass; stop when a pass moves nobody -/
 def drain : Nat → Sim → List String → Sim × List String
   | 0, sim, ev => (sim, ev)
   | fuel + 1, sim, ev =>
@@ -199,9 +267,9 @@ def drain : Nat → Sim → List String → Sim × List String
     let (sim', ev', prog) := (List.range sim.tpcs.length).foldl (fun (acc : Sim × List String × Bool) i =>
       let (sm, e, p) := acc
       match sm.tpcs[i]? with
-      | some pc => if isFin pc then acc else
-          let (r, sm') := segT sm i pc
-          (sm', e ++ [s!"T{i}:{r}"], true)
+      | some pc => if isFin pc || sm.waiter == some i then acc else
+          let (r, sm') := stepName sm s!"T{i}"
+          (sm', e ++ [s!"T{i}:{r}"], p || (r != "held" && r != "skip" && r != "blocked"))
       | none => (sm, e, p)) (sim, [], false)
     if prog then drain fuel sim' (ev ++ ev') else (sim', ev ++ ev')
 
@@ -235,6 +303,7 @@ def runPipe (acts : List Act) : String :=
       let (sim, found) := lookup sim d
       (if found then act sim .write else sim, closed)
     | .new tok m => (newEp sim 0 tok m, closed)
+    | .newPark tok m => (newEp sim 0 tok m, closed)
     | .close k =>
       match ownIdx sim 0 k with
       | some idx => (act (act sim (.epClose idx)) (.remove idx), closed)
@@ -392,19 +461,25 @@ def firstInversion (arr l : List Pkt) : Option (Nat × Nat) :=
 def regPositions (specs : List String) (events : List (String × String)) : List (String × Nat) :=
   let dIdx := (List.range specs.length).find? (fun i => ((specs[i]?).getD "").startsWith "D:")
   let dName := match dIdx with | some i => s!"T{i}" | none => ""
-  let (_, _, _, acc) := events.foldl (fun (st : Nat × Bool × List (String × Nat) × List (String × Nat)) ev =>
-    let (looked, afterFound, created, acc) := st
+  let (_, _, _, _, acc) := events.foldl
+    (fun (st : Nat × Bool × List (String × Nat) × List String × List (String × Nat)) ev =>
+    let (looked, afterFound, created, inReg, acc) := st
     let (n, r) := ev
+    let kOf := ((created.find? (·.1 == n)).map (·.2)).getD 0
     if n == dName then
-      if r == "mux.dispatch.found" then (looked + 1, true, created, acc)
+      if r == "mux.dispatch.found" then (looked + 1, true, created, inReg, acc)
       else if r == "next" || r == "fin" then
-        if afterFound then (looked, false, created, acc) else (looked + 1, false, created, acc)
+        if afterFound then (looked, false, created, inReg, acc) else (looked + 1, false, created, inReg, acc)
+      else if r == "blocked" then (looked + 1, false, created, inReg, acc)   -- its lookup runs when the lock is free
       else st
+    else if r == "match" then
+      -- first park inside NewEndpoint: the endpoint is being registered now
+      if inReg.contains n then st else (looked, afterFound, created, n :: inReg, acc ++ [(s!"{n}.{kOf}", looked)])
     else if r == "mux.ep.registered" then
-      let k := ((created.find? (·.1 == n)).map (·.2)).getD 0
-      let created' := (n, k + 1) :: created.filter (·.1 != n)
-      (looked, afterFound, created', acc ++ [(s!"{n}.{k}", looked)])
-    else st) (0, false, [], [])
+      let created' := (n, kOf + 1) :: created.filter (·.1 != n)
+      if inReg.contains n then (looked, afterFound, created', inReg.filter (· != n), acc)
+      else (looked, afterFound, created', inReg, acc ++ [(s!"{n}.{kOf}", looked)])
+    else st) (0, false, [], [], [])
   acc
 
 def judgeDelivery (arr : List Pkt) (plain : Bool) (regPos : List (String × Nat)) (eps : List EpObs) (pend : List Pkt)
@@ -441,7 +516,8 @@ def judgeDelivery (arr : List Pkt) (plain : Bool) (regPos : List (String × Nat)
     | none => "ok"
   else "ok"
 
-def actsPlain (as : List Act) : Bool := as.all (fun a => match a with | .feed _ | .new _ _ | .read _ => true | _ => false)
+def actsPlain (as : List Act) : Bool :=
+  as.all (fun a => match a with | .feed _ | .new _ _ | .newPark _ _ | .read _ => true | _ => false)
 
 def judge (args out : List String) : String :=
   match args with
@@ -480,6 +556,7 @@ def judge (args out : List String) : String :=
         match a with
         | .feed _ => (fedN + 1, k, acc)
         | .new _ _ => (fedN, k + 1, acc ++ [(s!"P.{k}", fedN)])
+        | .newPark _ _ => (fedN, k + 1, acc ++ [(s!"P.{k}", fedN)])
         | _ => st) (0, 0, [])
       match (if epsT == ["none"] then some [] else epsT.mapM parseEpObs), parseHexList pendT with
       | some eps, some pend => judgeDelivery arr (actsPlain as) regPos eps pend loop
